@@ -177,10 +177,13 @@ class ShardResult:
 def _shard_entry(args):
     fn_module, fn_name, kwargs = args
     hush()
+    t0 = time.time()
     try:
         mod = __import__(fn_module, fromlist=[fn_name])
         res: ShardResult = getattr(mod, fn_name)(**kwargs)
-        return res.dump()
+        d = res.dump()
+        d["wall_s"] = round(time.time() - t0, 1)
+        return d
     except Exception:  # harness error: reported as exit 2 by the parent
         r = ShardResult()
         r.error = traceback.format_exc()
@@ -208,6 +211,7 @@ def merge(results: Iterable[Dict[str, Any]]) -> Dict[str, Any]:
         "known": collections.Counter(),
         "failures": [],
         "errors": [],
+        "shard_wall_s": [r.get("wall_s") for r in results],
     }
     for r in results:
         m["stats"].update(r["stats"])
